@@ -153,7 +153,7 @@ func runC18(c *Ctx, tier string) {
 				c.OK("C18-E1", construct, ci.Pos(), "exempt: Abort() has no result; it is the cleanup of a write that is already being reported as failed")
 				continue
 			}
-			if onErrorPath(ci) {
+			if onErrorPathStrict(ci) {
 				c.OK("C18-E1", construct, ci.Pos(), "cleanup on a path that already returns a non-nil error")
 				continue
 			}
